@@ -45,7 +45,7 @@ THEOREMS = [P + n for n in (
     'nanMeanFirst_common_mask', 'nanMeanFirstEntry_some_iff', 'nanRank_eq', 'normCosO_eq', 'normCorrO_eq',
     'pool_common_mask_plain', 'pool_common_mask',
     'poolShift_pooling', 'poolShift_inferenceUtil', 'poolShift_monotone_min', 'poolRdm_common_mask',
-    'regress_common_mask', 'regress_rejects_differing',
+    'regress_common_mask', 'regress_rejects_differing', 'poolRows_length', 'fit_pipeline_common_mask',
     'subsample_mask', 'bootstrap_compare_not_rejected',
 )]
 RULE = ('cases come from one PRNG; kinds compare (n = 4..6 conditions, stacks of 1..3 RDMs, small '
@@ -82,7 +82,7 @@ BRANCHES = (['method:' + m for m in METHODS] + ['mask:' + k for k in MASKKINDS] 
              'rescale:nonproportional', 'rescale:partials',
              'pool:inf', 'pool:pool', 'pool:common', 'pool:differing', 'pool:cov_sigma',
              'regress:ls', 'regress:nn', 'regress:bootstrap', 'regress:rejected', 'regress:ridge',
-             'regress:sigma'])
+             'regress:sigma', 'regress:sigma_vec', 'pool:sigma_vec'])
 ASSUMPTIONS = [
     'IEEE evaluation of either side is within the stated tolerance of the real value (small '
     'integer / quarter inputs, n <= 6, well-conditioned sigma_k and regression designs)',
@@ -155,8 +155,9 @@ class _Timeout(Exception):
 
 
 def _with_alarm(seconds, fn):
-    """`_nn_least_squares` of the tree can loop forever on well-posed inputs (its stopping test is
-    absolute, a C08 matter); such a call is cut off and reported as {'exc': 'Timeout'}"""
+    """safety net: `_nn_least_squares` used to loop forever on well-posed inputs (repaired by 217b28e5:
+    bounded iterations); a call that still exceeds the limit is cut off and reported as
+    {'exc': 'Timeout'} (feature `nn_timeout`, not judged)"""
     import signal
     import threading
     if threading.current_thread() is not threading.main_thread():
@@ -476,7 +477,7 @@ def _pool_case(rng, variant, method, maskkind):
         zero = i
     sig = None
     if variant == 'pool' and method.endswith('_cov'):
-        sig = _sigma(rng, n, rng.choice(['none', 'mat', 'mat']))   # util.matrix.get_v takes no variance vector
+        sig = _sigma(rng, n, rng.choice(['none', 'vec', 'mat']))
     return {'kind': 'pool', 'variant': variant, 'method': method, 'n': n, 'sigma': sig, 'stack': st,
             'maskkind': maskkind, 'zero_row': zero}
 
@@ -538,7 +539,7 @@ def _regress_case(rng, method, nn, mode):
             continue
         break
     case.update({'n': n, 'A': A, 'data': D})
-    case['sigma'] = _sigma(rng, n, rng.choice(['none', 'mat', 'mat'])) if method.endswith('_cov') else None
+    case['sigma'] = _sigma(rng, n, rng.choice(['none', 'vec', 'mat'])) if method.endswith('_cov') else None
     return case
 
 
@@ -644,7 +645,7 @@ def _expand_parts(n, parts, auto):
 def _nnls(a, y, ridge, V):
     from rsatoolbox.model import fitter
     import scipy.sparse
-    r = _with_alarm(2.0, lambda: fitter._nn_least_squares(
+    r = _with_alarm(10.0, lambda: fitter._nn_least_squares(
         a.T, y, ridge_weight=ridge, V=None if V is None else scipy.sparse.csc_matrix(V)))
     if isinstance(r, dict):
         return np.full(a.shape[0], np.nan)
@@ -798,7 +799,7 @@ def _impl_regress(case):
             model = ModelWeighted('m', RDMs(_arr(case['A'])))
             theta = fit(model, RDMs(_arr(case['data'])), **kw)
         return {'theta': [float(t) for t in np.asarray(theta).ravel()]}
-    return _with_alarm(2.0, lambda: _quiet(go)) if case['nn'] else _quiet(go)
+    return _with_alarm(10.0, lambda: _quiet(go)) if case['nn'] else _quiet(go)
 
 
 def _impl_subsample(case):
@@ -1191,6 +1192,8 @@ def features(case, impl):
             br.append('pool:' + case['maskkind'])
         if case['sigma'] is not None:
             br.append('pool:cov_sigma')
+            if 'vec' in case['sigma']:
+                br.append('pool:sigma_vec')
         if case.get('zero_row') is not None:
             br.append('pool:zero_norm')
     if k == 'regress':
@@ -1206,6 +1209,8 @@ def features(case, impl):
             br.append('regress:ridge')
         if case['sigma'] is not None:
             br.append('regress:sigma')
+            if 'vec' in case['sigma']:
+                br.append('regress:sigma_vec')
     f['branches'] = br
     return f
 
